@@ -226,6 +226,27 @@ def run (ctx):
            "the handshake's features-reply handler no longer starts the buffer: port status received during the rest of the handshake is lost (or an older buffer is kept)", hfr, 'D2')
   # ---- D3 reassembly ----------------------------------------------------------------
   isr = q.find_method(repo, con, '_incoming_stats_reply', 'C17'); ctx.analysed(isr)
+  # the parts collected so far belong to the reassembly alone: nothing else that runs while the connection is live (a handler
+  # of some other message) may drop or replace them - the aggregated event would then carry only the later parts
+  n_w = 0
+  for cls_ in mod.classes.values():
+    for f_ in cls_.methods.values():
+      if f_ is isr or f_.name == '__init__': continue
+      for t, v, st, k in q.stores_in(f_.node):
+        hit = isinstance(t, ast.Attribute) and t.attr == '_previous_stats'
+        if not hit and isinstance(t, ast.Subscript) and isinstance(t.value, ast.Attribute) and t.value.attr == '_previous_stats': hit = True
+        if not hit: continue
+        n_w += 1
+        live = f_.name.startswith('handle_') or f_.name.startswith('_handle_') or f_.name in ('read', 'send')
+        ctx.ob('R-OWN', f_, "only the reassembly writes the list of collected parts (`%s`)" % norm(st)[:40], False if live else None,
+               "%s, which runs for messages that arrive between the parts of a multi-part reply, replaces `_previous_stats` (`%s`): the parts received so far are thrown away and the aggregated event "
+               "fires with the later entries only" % (f_.qual, norm(st)[:50]) if live else "written in %s" % f_.qual, (mod, st), 'D3')
+      for c_ in calls_in(f_.node):
+        if isinstance(c_.func, ast.Attribute) and c_.func.attr in ('clear', 'pop', 'remove', 'append', 'extend', 'insert') and isinstance(c_.func.value, ast.Attribute) and c_.func.value.attr == '_previous_stats':
+          n_w += 1
+          ctx.ob('R-OWN', f_, "only the reassembly writes the list of collected parts (`%s`)" % norm(c_)[:40], False if (f_.name.startswith('handle_') or f_.name.startswith('_handle_')) else None,
+                 "%s changes `_previous_stats` in place (`%s`) while a multi-part reply may be in progress" % (f_.qual, norm(c_)[:50]), (mod, c_), 'D3')
+  ctx.stat('writers of the part list outside the reassembly', n_w)
   g = q.cfg_of(isr); ofp = isr.params[1]
   PS = 'self._previous_stats'
   appends = g.nodes_with_call(lambda c: call_name(c) == 'append' and norm(c.func.value) == PS)
